@@ -18,7 +18,7 @@ ASSUMPTIONS = ["exact reals; X = corr32 (3x2), hyper-parameters from a catalogue
                "scipy.optimize.minimize (LBFGS) replaced by a zero-iteration contract stub; random power-method start fixed",
                "numba typing failures and interpreter crashes are facts about compiled code and are outside (Python semantics only)"]
 BOUNDS = dict(quick="validation of ALL cells; the solve of a deterministic 1/12 sample of the accepted cells (1/48 for irrational-step "
-                    "compositions), <= 40 paths / 15 s per cell", thorough="validation of all cells; solve of a 1/3 sample, <= 300 paths / 45 s per cell")
+                    "compositions) plus one cell per (solver configuration, datafit, storage) stratum, <= 40 paths / 15 s per cell", thorough="validation of all cells; solve of a 1/3 sample, <= 300 paths / 45 s per cell")
 
 EXPLAINED = re.compile(r"Missing|must implement|is not compatible|not block-separable|must be compatible|not yet supported|"
                        r"supports only|should only take positive|has no attribute|Unsupported|should be of size|should be n_features")
@@ -137,7 +137,10 @@ def mk_penalty(h, name, p):
     return h.penalty(getattr(Pm, name), **kw)
 
 
-def u_cell(h, solver, skw, datafit, penalty, sparse, sym_y=True, run_solve=True):
+TWIN_SOLVERS = ('AndersonCD', 'ProxNewton', 'MultiTaskBCD', 'GramCD')
+
+
+def u_cell(h, solver, skw, datafit, penalty, sparse, sym_y=True, run_solve=True, _twin=False):
     import skglm.solvers.lbfgs as lb
     from vf import shim
     Xc = X_of('corr32')
@@ -182,6 +185,8 @@ def u_cell(h, solver, skw, datafit, penalty, sparse, sym_y=True, run_solve=True)
                 return
             out = sol.solve(X, y, df, pen)
         except (AttributeError, ValueError) as e:
+            if _twin:
+                raise
             msg = str(e)
             if isinstance(e, ValueError) and ('broadcast' in msg or 'shape' in msg or 'dimension' in msg):
                 raise
@@ -202,6 +207,23 @@ def u_cell(h, solver, skw, datafit, penalty, sparse, sym_y=True, run_solve=True)
         h.ensure('finite-coef', h.is_finite(v))
     for v in np.asarray(obj, dtype=object).flat:
         h.ensure('finite-history', h.is_finite(v))
+    if sparse and solver in TWIN_SOLVERS and not _twin:
+        # "meets the certificate" for the CSC cell, by reduction to its dense sibling (whose certificate is C01's subject):
+        # the same composition on the dense copy of X must return the same coefficients and the same stopping value
+        # (solvers whose CSC step sizes come from the randomised power method are excluded)
+        try:
+            w2, obj2, sc2 = u_cell(h, solver, skw, datafit, penalty, False, sym_y=sym_y, run_solve=True, _twin=True)
+        except (AttributeError, ValueError):
+            return                       # the dense sibling is refused: nothing to compare with
+        a, b = np.asarray(w, dtype=object).ravel(), np.asarray(w2, dtype=object).ravel()
+        h.ensure('csc-cell-returns-what-the-dense-cell-returns[shape]', len(a) == len(b))
+        for k in range(min(len(a), len(b))):
+            if _isinf(a[k]) or _isinf(b[k]):
+                continue
+            h.ensure('csc-cell-returns-what-the-dense-cell-returns[coef %d]' % k, h.eq(a[k], b[k]))
+        if not (_isinf(sc) or _isinf(sc2)):
+            h.ensure('csc-cell-returns-what-the-dense-cell-returns[stop_crit]', h.eq(sc, sc2))
+    return w, obj, sc
 
 
 def dh(t):
@@ -217,13 +239,34 @@ def all_cells():
         yield solver, skw, df, pen, sparse
 
 
+FAMILY_PENALTIES = dict(GroupBCD=('WeightedGroupL2', 'WeightedL1GroupL2'), GroupProxNewton=('WeightedGroupL2', 'WeightedL1GroupL2'),
+                        MultiTaskBCD=('L2_1', 'L2_05', 'BlockMCPenalty', 'BlockSCAD'), LBFGS=('L2',))
+SEPARABLE = ('L1', 'L1_plus_L2', 'WeightedL1', 'MCPenalty', 'WeightedMCPenalty', 'IndicatorBox', 'PositiveConstraint')
+
+
+def _cid(solver, skw, df, pen, sparse):
+    return '%s[%s],%s,%s,%s' % (solver, ','.join('%s=%s' % kv for kv in sorted(skw.items())), df, pen, 'csc' if sparse else 'dense')
+
+
 def units(tier):
     us = []
+    # stratified part of the sample: in every (solver configuration, datafit, storage) stratum the smallest-hash cell among
+    # the penalties of the solver's own family is always run
+    strata = {}
     for solver, skw, df, pen, sparse in all_cells():
-        cid = '%s[%s],%s,%s,%s' % (solver, ','.join('%s=%s' % kv for kv in sorted(skw.items())), df, pen, 'csc' if sparse else 'dense')
+        if pen not in FAMILY_PENALTIES.get(solver, SEPARABLE):
+            continue
+        cid = _cid(solver, skw, df, pen, sparse)
+        key = (solver, tuple(sorted(skw.items())), df, sparse)
+        if key not in strata or dh(cid) < dh(strata[key]):
+            strata[key] = cid
+    always = set(strata.values())
+    for solver, skw, df, pen, sparse in all_cells():
+        cid = _cid(solver, skw, df, pen, sparse)
         run_solve = (dh(cid) % 12 == 0) if tier == 'quick' else (dh(cid) % 12 in (0, 1, 2, 3))
         if tier == 'quick' and (solver in ('FISTA', 'PDCD_WS') or pen in ('SCAD', 'LogSumPenalty', 'L0_5', 'L2_3', 'L2_05')):
             run_solve = run_solve and (dh(cid) % 48 == 0)       # irrational step sizes / roots: few symbolic runs in quick
+        run_solve = run_solve or cid in always
         us.append(Unit('C13/D/cell[%s]' % cid, u_cell, dict(solver=solver, skw=skw, datafit=df, penalty=pen, sparse=sparse,
                                                             sym_y=True, run_solve=run_solve),
                        wall_s=15 if tier == 'quick' else 45, max_paths=40 if tier == 'quick' else 300, timeout_ms=3000,
@@ -237,9 +280,12 @@ MANIFEST = dict(
                 "x 13 datafits x 19 penalties x {dense, CSC}, ~12k cells): for EVERY cell the real BaseSolver validation runs "
                 "on the initialised datafit; a refusal must be an AttributeError / ValueError whose message names the missing "
                 "method or structure (a refusal path takes no data-dependent branch, so it holds for all data). For a "
-                "deterministic sample of the accepted cells the real solve() is executed under minimal budgets with symbolic "
-                "targets: on every explored feasible path it returns finite coefficients / history and raises nothing else "
-                "(IndexError, TypeError, broadcasting ValueError, ZeroDivisionError, UnboundLocalError ... are violations)."),
+                "deterministic sample of the accepted cells (a hashed 1/12 plus one cell per (solver configuration, datafit, "
+                "storage) stratum) the real solve() is executed under minimal budgets with symbolic targets: on every explored "
+                "feasible path it returns finite coefficients / history and raises nothing else (IndexError, TypeError, "
+                "broadcasting ValueError, ZeroDivisionError, UnboundLocalError ... are violations), and a CSC cell returns, "
+                "term for term, what its dense sibling returns (the 'meets the certificate' half by reduction to the dense "
+                "cell, whose certificate is C01's subject)."),
     level_note=("Python semantics of the njit sources only: numba TYPING failures, segfaults and interpreter exits are facts about "
                 "compiled code and cannot be decided by this technique (they show up only if a counterexample is replayed on the "
                 "jitted build). Accepted cells outside the sample are validated but not run here (their runs are in C01/C19/C20 "
